@@ -2197,3 +2197,102 @@ func init() {
 			return out
 		}})
 }
+
+// ---- FLAGNEST
+//
+// IsNTT and IsMontgomery are independent: an element can be in any of the four combinations. Code that handles one flag
+// inside one arm of a test of the other flag (`if ct.IsNTT { …; if ct.IsMontgomery { MForm } }`) handles it for that
+// arm only: in the other arm the nested flag is ignored, and an element asking for (non-NTT, Montgomery) silently gets
+// (non-NTT, non-Montgomery) data.
+//
+// Rule: whenever a test of `X.IsMontgomery` (resp. `X.IsNTT`) is nested inside an arm of an `if` on `X.IsNTT` (resp.
+// `X.IsMontgomery`) of the same owner X, the other arm of that `if` exists and tests the nested flag of X as well.
+
+func scanFlagNest(c *core.Ctx) []ob {
+	var out []ob
+	n := 0
+	flagOf := func(cond ast.Expr) (owner, flag string) {
+		e := unparen(cond)
+		for {
+			u, ok := e.(*ast.UnaryExpr)
+			if !ok || u.Op != token.NOT {
+				break
+			}
+			e = unparen(u.X)
+		}
+		se, ok := e.(*ast.SelectorExpr)
+		if !ok || (se.Sel.Name != "IsNTT" && se.Sel.Name != "IsMontgomery") {
+			return "", ""
+		}
+		return exprString(se.X), se.Sel.Name
+	}
+	testsFlag := func(n ast.Node, owner, flag string) bool {
+		found := false
+		if n == nil {
+			return false
+		}
+		ast.Inspect(n, func(x ast.Node) bool {
+			if is, ok := x.(*ast.IfStmt); ok {
+				if o, f := flagOf(is.Cond); o == owner && f == flag {
+					found = true
+				}
+			}
+			return !found
+		})
+		return found
+	}
+	c.FuncDecls(func(pk *packages.Package, file *ast.File, fd *ast.FuncDecl) {
+		if fd.Body == nil || fileIsTestSupport(c.Program, fd.Pos()) || inExamples(pk) {
+			return
+		}
+		fkey := core.FuncKey(pk, fd)
+		ast.Inspect(fd.Body, func(x ast.Node) bool {
+			outer, ok := x.(*ast.IfStmt)
+			if !ok {
+				return true
+			}
+			owner, flag := flagOf(outer.Cond)
+			if owner == "" {
+				return true
+			}
+			other := "IsMontgomery"
+			if flag == "IsMontgomery" {
+				other = "IsNTT"
+			}
+			inThen := testsFlag(outer.Body, owner, other)
+			inElse := outer.Else != nil && testsFlag(outer.Else, owner, other)
+			if !inThen && !inElse {
+				return true
+			}
+			n++
+			key := fmt.Sprintf("FLAGNEST:%s#%s.%s/%s", fkey, owner, flag, other)
+			if inThen && inElse {
+				out = append(out, withProps(okOb("FLAGNEST", key, c.Rel(outer.Pos()), "both arms of the test handle the other flag", true), bufProps(fkey)...))
+				return true
+			}
+			arm := "else"
+			if inElse {
+				arm = "then"
+			}
+			out = append(out, withProps(violOb("FLAGNEST", key, c.Rel(outer.Pos()), fmt.Sprintf("%s tests %s.%s only inside one arm of its test of %s.%s: in the %s arm the flag %s is ignored, although the two flags are independent", fkey, owner, other, owner, flag, arm, other)), bufProps(fkey)...))
+			return true
+		})
+	})
+	c.Stats["flagnest_sites"] = n
+	return out
+}
+
+func init() {
+	core.Register(&core.Rule{Name: "FLAGNEST", Props: []string{"C03", "C04", "C20", "C14", "C16"},
+		Doc: "a test of X.IsMontgomery nested inside an arm of a test of X.IsNTT (or the reverse) has a counterpart in the other arm: the two flags are independent and neither is handled for one value of the other only",
+		Run: func(c *core.Ctx) []ob {
+			out := scanFlagNest(c)
+			for _, o := range control(c, "FLAGNEST", scanFlagNest, "(fixEvaluator).Emit") {
+				out = append(out, withProps(o, "C03", "C04", "C20"))
+			}
+			for _, o := range core.Floor("FLAGNEST", nil, "nested flag tests", c.Stats["flagnest_sites"], 2) {
+				out = append(out, withProps(o, "C03", "C04", "C20"))
+			}
+			return out
+		}})
+}
